@@ -457,6 +457,18 @@ func nativePhase(ld *sym.Loaded, prop, tier string, outcomes []*hOutcome, outDir
 							violDone[it.viol] = true
 							it.o.confirmed = append(it.o.confirmed, confirmedV{v: *it.viol, replay: it.file, detail: r.status + ": " + r.detail})
 						}
+					} else if r.status == "skip" {
+						// the native run could not follow the engine on this path: the harness declares it
+						// (NativeSkip / EngineOnly: summarised internals, uninterpreted curve, ...) or a
+						// harness assumption over environment-model values (uninterpreted functions, ideal
+						// ciphers) does not hold for the native stand-ins. Nothing contradicts the engine's
+						// counterexample, so it has the same standing as one of a no_replay harness and is
+						// reported as an engine-level violation. (UNCONFIRMED is kept for native runs that
+						// complete without failing.)
+						if !violDone[it.viol] {
+							violDone[it.viol] = true
+							it.o.confirmed = append(it.o.confirmed, confirmedV{v: *it.viol, replay: it.file, detail: "engine-level counterexample (the native run cannot follow the engine here: " + r.detail + ")"})
+						}
 					} else {
 						os.WriteFile(it.file+".native.txt", []byte(r.status+"\n"+r.detail+"\n"+raw), 0o644)
 						violTried[it.viol] = it.o
